@@ -81,6 +81,9 @@ def RMat.mul (a b : RMat) : RMat :=
 def RMat.add (a b : RMat) : RMat :=
   (Array.range a.size).map fun i => (Array.range (a.getD i #[]).size).map fun j => a.get i j + b.get i j
 
+def RMat.isId (a : RMat) : Bool :=
+  (List.range a.size).all fun i => (List.range a.size).all fun j => a.get i j == (if i = j then 1 else 0)
+
 /-- inverse by Gauss–Jordan elimination; `none` if singular -/
 def RMat.inv (a : RMat) : Option RMat := Id.run do
   let n := a.size
@@ -111,7 +114,8 @@ def getP (S : RMat) (R : List (Array Rat)) (theta : Rat) : Option (List RMat × 
   let rTotal : Array Rat := (Array.range k).map fun s => R.foldl (fun acc Ri => acc + Ri.getD s 0) 0
   let M : RMat := (Array.range k).map fun i => (Array.range k).map fun j =>
     (if i = j then 1 else 0) - (1 / rTotal.getD i 0) / theta * S.get i j
-  match M.inv with
+  -- the Gauss–Jordan result is used only if it is CERTIFIED: `M * Ptot = 1` and `Ptot * M = 1` exactly
+  match (M.inv).filter (fun Ptot => RMat.isId (M.mul Ptot) && RMat.isId (Ptot.mul M)) with
   | none => none
   | some Ptot =>
     let pTot : Array Rat := (Array.range k).map fun i =>
